@@ -512,6 +512,7 @@ class SNum:
     shape = ()
     ndim = 0
     size = 1
+    dtype = np.dtype(object)     # astropy's unit converters pass through anything that has a dtype
 
     def __getitem__(s, k):
         if k == () or k is Ellipsis:
@@ -520,6 +521,9 @@ class SNum:
 
     def __repr__(s):
         return f"{type(s).__name__}({z3.simplify(s.e)})"
+
+    def __bool__(s):
+        return bool(SBool(s.e != 0))
 
     __add__ = _binop(lambda a, b: a + b)
     __radd__ = _binop(lambda a, b: a + b, True)
@@ -624,6 +628,18 @@ class SNum:
     def sign(s):
         return SInt(z3.If(s.e > 0, 1, z3.If(s.e < 0, -1, 0)))
 
+    def fmod(s, o):
+        """C fmod: remainder with the sign of the dividend"""
+        b = rv(o)
+        if b is None:
+            raise Unsupported("fmod with a non-number")
+        a = s.e
+        both_int = a.sort() == z3.IntSort() and b.sort() == z3.IntSort()
+        ar, br = _toreal(a), _toreal(b)
+        q = trunc_term(ar / br)
+        r = ar - br * z3.ToReal(q)
+        return SInt(z3.ToInt(r)) if both_int else SReal(r)
+
     def item(s):
         return s
 
@@ -718,6 +734,7 @@ class SComplex:
     shape = ()
     ndim = 0
     size = 1
+    dtype = np.dtype(object)
 
     def __init__(s, re, im):
         s.re = re
